@@ -827,6 +827,10 @@ impl Model {
     pub fn loops_len(&self) -> usize {
         self.loops.len()
     }
+    /// variables of the open loops, outermost first
+    pub fn loop_vars(&self) -> Vec<String> {
+        self.loops.iter().map(|l| l.var.clone()).collect()
+    }
     pub fn data_pos(&self) -> usize {
         self.data_pos
     }
